@@ -129,6 +129,24 @@ pub fn run_sample(wt: &WireType, si: usize, chunk: usize, depth: usize, st: &mut
             st.inputs += 1;
             st.accepted += 1;
             check_value(wt, s, &format!("sample #{si}"), st, usize::MAX);
+            // value level, from the typed sample x itself (a decoder that maps two encodings to one
+            // value, or an encoder that drops a field, is invisible once only bytes are kept)
+            let mut fail = |class: &str, what: String| {
+                let k = format!("{class}:{}", wt.name);
+                st.viol.entry(k.clone()).or_insert_with(|| (format!("[{k}] sample #{si}: {what}"), json!({"harness": "c09", "type": wt.name, "input_hex": hex(s), "how": format!("sample #{si}")})));
+            };
+            match catch(|| (wt.sample_lossless)(si)) {
+                Ok(Ok(true)) => {}
+                Ok(Ok(false)) => fail("lossy", "decode(encode(x)) != x for the typed sample value x".into()),
+                Ok(Err(e)) => fail("lossy", format!("encode(x) of the typed sample value does not decode: {e:#}")),
+                Err(p) => fail("panic", format!("decode(encode(x)) panicked: {p}")),
+            }
+            // ... and at byte level: s = encode(x), so encode(decode(s)) must be s again
+            if let Ok(Ok((e, _))) = catch(|| (wt.decode_encode)(s)) {
+                if &e != s {
+                    fail("lossy", format!("encode(decode(encode(x))) = {} differs from encode(x) = {}", hex(&e), hex(s)));
+                }
+            }
         }
         let Some(tree) = wire::parse(s, &wt.descriptor) else {
             st.viol.entry(format!("unparseable:{}", wt.name)).or_insert_with(|| (format!("sample #{si} of {} is not parseable", wt.name), json!({})));
